@@ -99,6 +99,10 @@ func init() {
 			rulePackBeforeIndex(c)
 			ruleUploadErrorsPropagate(c)
 			ruleSnapshotAfterUpload(c)
+			// the writer side of the ordering, shared with C11
+			ruleUploaderFlush(c)
+			ruleRootTreeProvenance(c)
+			ruleStepsBeforeEffects(c)
 		},
 		Controls: []Control{
 			{Name: "stats-loads-index-before-listing", File: "cmd/restic/cmd_stats.go",
